@@ -85,6 +85,8 @@ def gen_trace(seed, world, tier, mode=None):
         cls, meth = "solver.CGNEQSolver", "compute"
     if cfg_seed is not None:
         cfg["seed"] = cfg_seed
+    if R.random() < 0.12:
+        cfg["verbose"] = True
     call = {"k": "call", "obj": "s0", "meth": meth, "args": [A],
             "tags": {"kind": kind, "m": m, "n": n, "cond": cond, "wrong_orientation": wrong, "scale": sc}}
     x = R.random() if mode is None else {"plain": 0.1, "clock": 0.55, "spd": 0.65, "jitter": 0.75, "sweep": 0.9}[mode]
